@@ -144,6 +144,27 @@ def error_statuses(W, body, eterm, val):
     if t[0] != "err":
         return value_statuses(W, body, t, val)
     x = t[1]
+    if x[0] == "phi":
+        # the error of a Result-valued local with several definitions (the result of a spliced helper with several
+        # returns): union over the error-producing definitions that may be live
+        pv = W.prov(body)
+        sel = val.get(("def", x[1]))
+        out = set()
+        for site, d in pv.phi_alternatives(x[1]):
+            if sel is not None and site not in sel:
+                continue
+            if d[0] == "agg" and isinstance(d[1], tuple) and d[1][0] == "adt" and d[1][2] == "Ok":
+                continue
+            if d[0] == "agg" and isinstance(d[1], tuple) and d[1][0] == "adt" and d[1][2] == "Err" and d[2]:
+                st = value_statuses(W, body, d[2][0][1], val)
+            elif d[0] == "call" and d[1] == S.FROM_RESIDUAL and d[3]:
+                st = error_statuses(W, body, d[3][0], val)
+            else:
+                st = error_statuses(W, body, ("err", d), val)
+            if st is None:
+                return None
+            out |= st
+        return out or None
     if x[0] == "call" and x[1] == S.FROM_RESIDUAL and x[3]:
         # the error of a Result that was itself built by `?` (a spliced helper's early return): the residual's error
         return error_statuses(W, body, x[3][0], val)
@@ -546,7 +567,7 @@ def c14_tables(rep, W, rule="C14"):
                 if st is not None and A["err"] in cond and o.val.get(A["err"]) is None:
                     st = _status_for_variant(W, o, cond[A["err"]])
                 if status == "no-response":
-                    okr = o.kind in ("propagated",) and st is not None and all(isinstance(x, int) and x >= 500 for x in st)
+                    okr = o.kind in ("propagated", "err") and st is not None and all(isinstance(x, int) and x >= 500 for x in st)
                     det = "NoSuchClient on AddVersion produces no response of its own (client is created and the operation re-run); exits under it are error propagation from the creation block only: kind=%s status=%s" % (o.kind, st)
                 else:
                     okr = st == status
@@ -687,6 +708,7 @@ def c15_refuse(rep, W, rule="C15.REFUSE"):
     hb = W.body(WD.CLIENT_ID_HEADER_FN)
     gh = W.gea(hb)
     n = 0
+    all_st = set()
     for site, term in S.exits(W, hb):
         if not S.is_error_exit(term):
             continue
@@ -705,9 +727,12 @@ def c15_refuse(rep, W, rule="C15.REFUSE"):
                         st = None
                         break
                     st |= s2
+        all_st |= (st or set())
         rep.ob(rule, (S.short_fn(hb), "error-exit#%d" % n), is_4xx(st),
                "client_id_header error exit at line %d answers %s" % (S.exit_line(hb, site), st), where(hb, line=S.exit_line(hb, site)))
-    rep.floor(rule, "client_id_header error exits", n, 4, where(hb))
+    # (a count of syntactic exits depends on how the parsing steps are grouped; what must exist is a 400 way out and a 403 one)
+    rep.floor(rule, "client_id_header error exits", n, 2, where(hb))
+    rep.ob(rule, (S.short_fn(hb), "refuses-with-400-and-403"), {400, 403} <= all_st, "statuses of the header helper's refusals: %s (malformed -> 400, unlisted -> 403)" % sorted(map(str, all_st)), where(hb))
     rep.ob(rule, (S.short_fn(hb), "no-storage-access"), not storage_reaching_calls(W, hb), "client_id_header reaches no storage call", where(hb))
 
 
